@@ -1,8 +1,41 @@
-(* C14 — text, dict and repr representations round-trip.  (theorems are added as they are proved) *)
+(* C14 — text, dict and repr representations round-trip. *)
 From Coq Require Import ZArith List Bool.
-Require Import Mido.Model.Base Mido.Model.Codec Mido.Model.Checks Mido.Model.Strings.
+Require Import Mido.Model.Base Mido.Model.Codec Mido.Model.Checks Mido.Model.Strings Mido.Proofs.StringsProofs.
 Import ListNotations.
 Open Scope Z_scope.
-Example C14_nonvacuous : parse_string (msg2str (Pitchwheel 3 (-8192)) (TvInt 10)) = Ok (Pitchwheel 3 (-8192), TvInt 10).
-Proof. vm_compute. reflexivity. Qed.
-Print Assumptions C14_nonvacuous.
+
+(* from_str(str(m)) == m for every valid message (sysex of any length, negative pitch, ...) and every time: any integer
+   (very large, negative) or a float carried as the token repr() prints (premise time_ok: the token is not an int literal,
+   is float syntax, has no whitespace, '=', ',' or '#': what CPython's repr gives for every finite float) *)
+Theorem C14_str : forall m t, valid m = true -> time_ok t -> parse_string (msg2str m t) = Ok (m, t).
+Proof. exact str_roundtrip. Qed.
+Print Assumptions C14_str.
+(* int(str(z)) == z for every integer (from the standard library's decimal conversions) *)
+Theorem C14_int_text : forall z, py_int (show_Z z) = Some z.
+Proof. exact py_int_show. Qed.
+Print Assumptions C14_int_text.
+
+(* from_dict(m.dict()) and eval(repr(m)): both are the constructor called with the message's own attribute values and time *)
+Theorem C14_dict_repr : forall m tv, valid m = true -> is_real tv = true ->
+  ctor (kind_of m) (kwargs_of_msg m ++ [(ATime, tv)]) = Ok (m, tv).
+Proof. exact ctor_of_valid_time. Qed.
+Print Assumptions C14_dict_repr.
+
+(* parse_string on ANY (ASCII) text: a valid message, or ValueError - never another exception, never an invalid message *)
+Theorem C14_parse_total : forall s, match parse_string s with Ok (m, t) => valid m = true | Raise e => e = ValueError end.
+Proof. exact parse_total. Qed.
+Print Assumptions C14_parse_total.
+
+(* parse_string_stream: blank lines and comment-only lines are skipped (the line counter still advances); every other line gives
+   exactly one result, the message or the error with ITS line number, and the stream carries on after an error *)
+Theorem C14_stream_blank : forall n l r, blank l = true -> parse_stream n (l :: r) = parse_stream (n + 1) r.
+Proof. exact stream_blank. Qed.
+Print Assumptions C14_stream_blank.
+Theorem C14_stream_line : forall n l r, blank l = false ->
+  parse_stream n (l :: r) = (match parse_string (strip_comment l) with Ok (m, t) => SMsg m t | Raise _ => SErr n end) :: parse_stream (n + 1) r.
+Proof. exact stream_line. Qed.
+Print Assumptions C14_stream_line.
+
+Example C14_nonvacuous : parse_string (msg2str (Pitchwheel 3 (-8192)) (TvInt 10)) = Ok (Pitchwheel 3 (-8192), TvInt 10)
+  /\ time_ok (TvFloat [48; 46; 53]) /\ parse_string [102; 111; 111] = Raise ValueError.
+Proof. split; [vm_compute; reflexivity|]. split; [|reflexivity]. repeat split; try reflexivity; discriminate. Qed.
